@@ -88,6 +88,10 @@ keeps the blanks). The model is a model of the repaired tree.
 * C04 (6-seed sweep after round 3, seed 11): the new re-evaluation family put redundant parentheses around a variable by a text
   replacement that also hit the letter `v` inside the string literal `"v="`, so its own expectation was wrong; the replacement is
   gone (the layout function already adds redundant parentheses at the tree level).
+* Same sweep: C02's legality clause judged a line (`DELAY 0-1`) that an IGNORE block inside a loop had emitted verbatim — IGNORE
+  output is not validated by DucklingScript, the property exempts it; the oracle now exempts output lines that stand inside an
+  IGNORE block of the source. C18's planted failure `DELAY abc` met a generated variable named `abc` and was no failure; the
+  planted failures use names and literals no generated program contains.
 * C09 thorough sweep: the token-soup family drew `$ENTER 10^400` — the known finding D19 under another family name. A hang is
   now identified by the call site the implementation was busy in when the timer fired (`compiler/commands/enter.py:run_compile`),
   and D19 is keyed on that call site, so the same defect reached through any generator is the same finding while a hang
